@@ -250,10 +250,10 @@ def _c18():
           H("c18::c18c_peek_indentation_5", "SassParser::peek_indentation on 5 tokens over {space, tab, newline, letter}: indentation of the "
             "next non-blank line, whitespace-only lines ignored, mixed tabs/spaces rejected", covers=("end", "indented", "mixed_tabs_spaces"),
             flags=ST + ("--no-memory-safety-checks",), timeout=1500),
-          H("c18::c18c_peek_indentation_7", "the same on 7 tokens", tiers=T, covers=("end", "indented", "mixed_tabs_spaces"),
+          H("c18::c18c_peek_indentation_6", "the same on 6 tokens", tiers=T, covers=("end", "indented", "mixed_tabs_spaces"),
             flags=ST + ("--no-memory-safety-checks",), timeout=2400)]
     return _simple(hs, ["lexer::TokenLexer::next", "parse::sass::SassParser::{peek_indentation, check_indentation_consistency}"],
-                   "sources of 3-4 ASCII bytes; one arbitrary code point + one ASCII byte; indentation over 5 (7) tokens",
+                   "sources of 3-4 ASCII bytes; one arbitrary code point + one ASCII byte; indentation over 5 (6) tokens",
                    "SCSS/indented/CSS agreement of the statement parsers, BOM/@charset handling, whitespace/comment insertion, "
                    "`_`/`-` identifier normalisation (see DESIGN.md), Lexer::new_from_* (collect with data-dependent length)",
                    stubs=[RS_STUB, FMT_STUB])
@@ -341,7 +341,8 @@ def _c09():
              "null_num": (T, "null vs number"), "bool_bool": (Q, "true vs false"), "true_true": (T, "true vs true"),
              "empty_empty": (Q, "two empty lists, any separator/brackets"),
              "empty_list": (Q, "empty list vs one-element list"), "str_null": (T, "string vs null")}
-    hs = [H("c09::c09a_" + k, b, tiers=t, covers=("end", "unequal"), flags=ST) for k, (t, b) in names.items()]
+    hs = [H("c09::c09a_" + k, b, tiers=t, covers=(("end", "equal") if k in ("true_true", "empty_empty") else ("end", "unequal")), flags=ST)
+          for k, (t, b) in names.items()]
     return _simple(hs, ["value::Value::{eq, not_equals}", "value::sass_number::SassNumber::eq", "value::number::fuzzy_equals"],
                    "values of the stated shapes; numbers from 6 magnitudes, unit pairs as listed (concrete per harness)",
                    "non-empty lists against each other (recursive eq/drop over Vec<Value> did not finish in 20 min), transitivity "
